@@ -612,11 +612,6 @@ pub struct StoreDump {
 }
 
 pub fn doc_dump(store: &mut Store, ns: NamespaceId) -> R<DocDump> {
-    let entries = dump(store, ns)?;
-    let by_key = dump_by_key(store, ns)?;
-    let heads = heads(store, ns)?.into_iter().map(|(a, (t, _))| (a, t)).collect();
-    let peers = es(store.get_sync_peers(&ns))?.map(|it| it.collect());
-    let policy = format!("{:?}", es(store.get_download_policy(&ns))?);
     let mut kind = None;
     for x in es(store.list_namespaces())? {
         let (id, k) = es(x)?;
@@ -624,17 +619,28 @@ pub fn doc_dump(store: &mut Store, ns: NamespaceId) -> R<DocDump> {
             kind = Some(format!("{k:?}"));
         }
     }
+    doc_dump_with_kind(store, ns, kind)
+}
+
+fn doc_dump_with_kind(store: &mut Store, ns: NamespaceId, kind: Option<String>) -> R<DocDump> {
+    let entries = dump(store, ns)?;
+    let by_key = dump_by_key(store, ns)?;
+    let heads = heads(store, ns)?.into_iter().map(|(a, (t, _))| (a, t)).collect();
+    let peers = es(store.get_sync_peers(&ns))?.map(|it| it.collect());
+    let policy = format!("{:?}", es(store.get_download_policy(&ns))?);
     Ok(DocDump { entries, by_key, heads, peers, policy, kind })
 }
 
 pub fn store_dump(store: &mut Store, docs: &[NamespaceId]) -> R<StoreDump> {
     let mut d = StoreDump::default();
-    for ns in docs {
-        d.docs.insert(ns.to_bytes(), doc_dump(store, *ns)?);
-    }
+    // listed once (every listing parses every stored capability, which derives a public key per write capability)
     for x in es(store.list_namespaces())? {
         let (id, k) = es(x)?;
         d.namespaces.push((id.to_bytes(), format!("{k:?}")));
+    }
+    for ns in docs {
+        let kind = d.namespaces.iter().find(|(id, _)| *id == ns.to_bytes()).map(|(_, k)| k.clone());
+        d.docs.insert(ns.to_bytes(), doc_dump_with_kind(store, *ns, kind)?);
     }
     for a in es(store.list_authors())? {
         d.authors.push(es(a)?.id().to_bytes());
